@@ -59,6 +59,9 @@ COV_RE = re.compile(r"^<(\w+) line (\d+), col \d+ to line \d+, col \d+ of module
 def run_tlc_design(cfg, spec, timeout_s, workers=None, simulate=None, extra=None):
     """Runs TLC on a design config. Returns dict(states, distinct, depth, coverage, violated, out)."""
     name = os.path.splitext(os.path.basename(cfg))[0]
+    if os.environ.get("VERIF_SKIP_DESIGN"):
+        # tools/seeded_matrix.py only: the design configs do not depend on the repository's code
+        return {"config": name, "rc": 0, "wall_s": 0, "generated": 0, "distinct": 0, "depth": 0, "coverage": {}, "violated": None, "timeout": False, "out_tail": "skipped"}
     meta = os.path.join(WORK, "tlc", name + "_" + str(os.getpid()))
     shutil.rmtree(meta, ignore_errors=True)
     os.makedirs(meta, exist_ok=True)
